@@ -20,6 +20,21 @@ class _Sink(io.TextIOBase):
 
 
 SINK = _Sink()
+UNRAISABLE = {"resource_warnings": 0}
+
+
+def install_unraisable_hook():
+    """csvpath turns warnings into errors process-wide; a file object finalised by
+    the garbage collector then prints 'Exception ignored ... ResourceWarning' on
+    stderr.  Count those instead of printing them; everything else is passed on."""
+
+    def hook(u):
+        if isinstance(u.exc_value, ResourceWarning):
+            UNRAISABLE["resource_warnings"] += 1
+            return
+        sys.__unraisablehook__(u)
+
+    sys.unraisablehook = hook
 
 
 @contextlib.contextmanager
